@@ -28,7 +28,8 @@ ASSUMPTIONS = ['metadata other than the model name is not compared',
                'association class names start with an upper-case letter (MAL convention), so the YAML key '
                'order keeps the class name before "extras"']
 
-EXTRAS = [{'x': 1}, {'position': {'x': 1.5, 'y': -2}}, {'note': 'yes', 'tags': ['a', 'b']}, {'color': 'é'}]
+EXTRAS = [{'x': 1}, {'position': {'x': 1.5, 'y': -2}}, {'note': 'yes', 'tags': ['a', 'b']}, {'color': 'é'},
+          {'2024': 'digit-only key', 'nested': {'7': 1}}]
 FORMATS = ['json', 'yml', 'yaml']
 
 
